@@ -76,7 +76,21 @@ def table_decimals():
                                           -15, 10, 100, -100]))
     scale = st.one_of(st.integers(0, 255), st.integers(0, 12),
                       st.sampled_from([0, 1, 6, 7, 8, 9, 28, 29, 255]))
-    return st.builds(build, unscaled, scale)
+    def build_pos(coefficient, exponent):
+        # written with a positive exponent (1E+2, 2.5E+3 after normalize(), ...): scale 0 and
+        # the unscaled value coefficient * 10**exponent, kept within 32 bits
+        while abs(coefficient) * 10 ** exponent > 2**31 - 1:
+            exponent -= 1
+        sign = 1 if coefficient < 0 else 0
+        digits = tuple(int(c) for c in str(abs(coefficient)))
+        return decimal.Decimal((sign, digits, exponent))
+    positive = st.builds(build_pos,
+                         st.one_of(st.integers(-2147, 2147),
+                                   st.integers(-2**31, 2**31 - 1),
+                                   st.sampled_from([1, -1, 25, 12, 2, 0])),
+                         st.integers(1, 9))
+    return st.one_of(st.builds(build, unscaled, scale), st.builds(build, unscaled, scale),
+                     st.builds(build, unscaled, scale), positive)
 
 
 # ---------------------------------------------------------------- strings
